@@ -255,7 +255,7 @@ def main(argv=None):
                 rec['outcome'] = 'reached'
                 rec['witness'] = {'args': r['args'], 'kwargs': r['kwargs'], 'returns': witness_ret(r['message'])}
                 if ob.get('validate'):
-                    vr = run_pyfunc(REAL_PY, ob['validate'], {'args': r['args'], 'kwargs': r['kwargs'],
+                    vr = run_pyfunc(REAL_PY, ob['validate'], {'args': r['args'], 'kwargs': r['kwargs'], 'target': ob['fn'],
                                                              'mode': 'witness', 'obligation': name}, tier, seed)
                     rec['validated_against_impl'] = vr
                     if vr.get('error') or not vr.get('ok', False):
@@ -346,7 +346,7 @@ def handle_counterexample(prop, ob, name, r, findings, tier, seed, lines, rec):
                      f'{r.get("message", "")[:300]}')
         return 'unreplayable', 0, True
     payload = {'args': r.get('args'), 'kwargs': r.get('kwargs'), 'mode': 'violation', 'obligation': name,
-               'model': r.get('model')}
+               'model': r.get('model'), 'target': ob['fn']}
     rr = run_pyfunc(REAL_PY, replay, payload, tier, seed)
     rec['replay'] = rr
     if rr.get('error'):
